@@ -85,7 +85,7 @@ theorem C25_monitor_exits {a h : Bool} {s s' : St} (hr : Reach a h s) (hc : s.ca
       · rcases hA with rfl | rfl | rfl | rfl | rfl | rfl <;> simp [exitRank]
       · subst hA; simp [exitRank]
     · simp at hB
-    · cases upc <;> simp at hC <;> rcases hC with rfl | rfl <;> simp
+    · cases upc <;> simp at hC <;> (first | (rcases hC with rfl | rfl) | subst hC) <;> simp
     · cases mpc with
       | act b => cases b <;> simp at hD <;> subst hD <;> simp [exitRank]
       | err c => cases auto <;> simp at hD <;> subst hD <;> cases c <;> simp [exitRank, classify]
@@ -111,7 +111,7 @@ theorem C25_monitor_exits {a h : Bool} {s s' : St} (hr : Reach a h s) (hc : s.ca
       | dial => simp at hB; rcases hB with ⟨_, rfl⟩; simp
       | uConnect => simp at hB; rcases hB with ⟨_, rfl⟩; simp
       | uConnectOk => simp at hB; rcases hB with ⟨_, rfl⟩; simp
-      | uConnectErr => simp at hB; rcases hB with ⟨_, rfl⟩; simp
+      | uConnectErr => cases upc <;> cases cl <;> simp at hB <;> subst hB <;> simp
       | uClose => simp at hB; rcases hB with ⟨_, rfl⟩; simp
       | uCloseEnd => simp at hB; rcases hB with ⟨_, rfl⟩; simp
       | mError c => simp at hB
@@ -126,12 +126,13 @@ theorem C25_closed_is_final {a h : Bool} {s : St} (hr : Reach a h s) (h1 : s.cl 
   have hi := C25_invariant hr
   rcases s with ⟨upc, mpc, cl, ca, sess, last, auto, hooks⟩
   simp only at h1 h2; subst h1 h2
-  have hu : upc = .running := by cases upc <;> simp [Good] at hi <;> rfl
-  subst hu
-  refine ⟨?_, ?_, ?_⟩
-  · close_inv
-  · cases hooks <;> simp [tau, monHidden]
-  · intro e; cases hooks <;> cases e <;> simp [obs]
+  have hu : upc = .running ∨ upc = .failed := by cases upc <;> simp [Good] at hi <;> simp
+  rcases hu with rfl | rfl
+  all_goals
+    refine ⟨?_, ?_, ?_⟩
+    · close_inv
+    · cases hooks <;> simp [tau, monHidden]
+    · intro e; cases hooks <;> cases e <;> simp [obs]
 
 /-- … and the monitor goroutine does get there: `C25_monitor_exits` bounds its
     remaining steps, and in `exit` the only thing it can do is report `Closed` -/
